@@ -47,12 +47,18 @@ RULE = ('one case = one public call (estimator function or analyzer attribute) r
         '(b) every other analyzer with a set_input x the 7 candidate kinds; (c) Coherence / Sparse / Seed constructors with arguments they may refuse (1-d, one channel, unknown / missing this_method, '
         'seed and target rates differ) given a CALLER\'s method dict, which is compared and then used for a proper analyzer; (d) get_spectra / cache_fft refused (unknown this_method, window of the wrong '
         'length, lb > ub, non-integer NFFT), then called properly with the same dict and data. '
+        '(8) ROUND 4: every entry point that takes an FFT length next to the data (the four estimators, get_spectra and CoherenceAnalyzer with multi_taper_csd / periodogram_csd / welch, SpectralAnalyzer psd / cpsd) x NFFT absent / smaller / much smaller / equal / larger / larger with the other parity than the series x both parities x sides: '
+        'the frequency vector against the LENGTH and SPACING of the spectrum it accompanies (one entry per spectral value of the same call or of the same analyzer: .spectrum, .coherence, .coherency, .phase, .delay), Fs / NFFT_used with NFFT_used = max(n, NFFT) for multitaper, NFFT for periodogram / Welch; a tone of known frequency must peak at its reported frequency; '
+        'utils.get_bounds called directly on exact grids with both edges on a bin and 1 ulp to either side (all nine combinations), ub=None / lb omitted, and between bins on inexact grids. '
+        '(9) LONG RECORDS (oracle only, two lengths per quick run rotated by VERIF_SEED out of 2^17..2^20 and 2^k +- 1; thorough: all + 10^6): get_freqs (exact integer comparison on power-of-two grids, 4 ulp against a long-double reference otherwise), get_bounds and FilterAnalyzer.filtered_fourier (impulse probe, in s / ms / us) with edges in the upper half of the grid: '
+        'on a bin and +-1 ulp (exact grids), half-way between bins and 1e-4 of a bin off a bin (other lengths), compared as integers with the exact bin set. '
         'distinct = distinct protocol line (site, Fs, N, band); non-trivial = N >= 3')
 ASSUMPTIONS = ['Fs > 0 finite; N >= 2; the frequency vector is compared with the exact rational grid at 4 ulp per entry',
                'np.pi is represented in the exact runs by a 40-digit rational (theorems hold for any value of pi)',
                'mlab.psd/csd frequency vector = k*Fs/NFFT (contract, monitored: the Welch paths are compared with the true grid by the oracle on every run)',
                'analyzer cases use sampling intervals whose rate 1e12/dt_ps is an exactly representable double, or sampling_rate= given directly']
-TRUSTED_EXTRA = ['harness/translate_c05.py gen_setinput: which statements of set_input / __init__ are a possible raise (a `raise` under a condition, a call of a method of the class whose body contains a raise), a reset(), '
+TRUSTED_EXTRA = ['harness/translate_c05.py gen_freqsrc: a getter body `a, b = <call>; return a|b` (docstring aside) is a component of that call, anything else is .other -> Generated/FreqSrc.lean; that NFFT_used of the multitaper estimators is max(n, NFFT) is GENERATED (GridLens) and proved, the oracle uses the documented rule independently',
+                 'harness/translate_c05.py gen_setinput: which statements of set_input / __init__ are a possible raise (a `raise` under a condition, a call of a method of the class whose body contains a raise), a reset(), '
                  'a write of self.input / self.method[\'Fs\'] (or the rebinding self.method = dict(self.method, Fs=…)); local bindings are skipped, anything else is .unknown and the theorems stop checking -> Generated/SetInput.lean; '
                  'that an exception ends the body with the state reached so far, and that every Fs-dependent getter of Coherence/SparseCoherenceAnalyzer reads method[\'Fs\'] (Nitime/Model/CohSession.lean), is monitored by the `sess` / `ctor` correspondence',
                  'harness/translate_c05.py gen_lens: symbolic execution of the estimators up to the statement that builds the grid (which assignments / tests / calls are understood is '
@@ -260,6 +266,10 @@ def run_call(m):
         return run_two(m)
     if m.get('call') == 'sk':
         return run_sk(m)
+    if m.get('call') == 'nfft':
+        return run_nfft(m)
+    if m.get('call') == 'bounds':
+        return run_bounds(m)
     if m.get('call') == 'fail':
         return run_fail(m)
     if m.get('sandwich') and not m.get('_inner'):
@@ -1197,6 +1207,10 @@ def model_line(m):
         return two_line(m)
     if m.get('call') == 'sk':
         return sk_line(m)
+    if m.get('call') == 'nfft':
+        return nfft_line(m)
+    if m.get('call') == 'bounds':
+        return 'C05 bounds get_freqs %s %d %s %s' % (m['Fs'], m['N'], m.get('lb') or '0', m.get('ub') or 'none')
     if m.get('hist'):
         mm = {k: v for k, v in m.items() if k != 'hist'}
         return 'C05 hist %s %s' % (m['hist'].get('seen') or m['hist']['events'], model_line(mm)[4:])
@@ -1255,6 +1269,10 @@ def judge(m, res):
         return judge_two(m, res)
     if m.get('call') == 'sk':
         return judge_sk(m, res)
+    if m.get('call') == 'nfft':
+        return judge_nfft(m, res)
+    if m.get('call') == 'bounds':
+        return judge_bounds(m, res)
     if m.get('sandwich') and not isinstance(res, str):
         mm = {k: v for k, v in m.items() if k != 'sandwich'}
         pre = '%s/recall' % m['call']
@@ -1532,6 +1550,16 @@ def make_case(m):
     if m.get('call') == 'sk':
         impl = res if isinstance(res, str) else flist(np.asarray(res[0], dtype=float).reshape(-1))
         c = _C(model_line(m), impl, 'Sk/%s/%s' % (m['est'], m['via']), cmp=cmp_grid(False), meta=m, nontrivial=True)
+        c._res = res
+        return c
+    if m.get('call') == 'nfft':
+        impl = res if isinstance(res, str) else flist(np.asarray(res[0], dtype=float).reshape(-1))
+        c = _C(model_line(m), impl, 'nfft-vs-length/%s/%s' % (m['via'], m['est']), cmp=cmp_grid(False), meta=m, nontrivial=True)
+        c._res = res
+        return c
+    if m.get('call') == 'bounds':
+        impl = res if isinstance(res, str) else '%d %d' % (res[0], res[1])
+        c = _C(model_line(m), impl, 'get_bounds/' + m.get('band_mode', 'band'), meta=m, nontrivial=True)
         c._res = res
         return c
     kind = CALLS[m['call']][1]
@@ -1853,6 +1881,355 @@ def gen_sandwich(rng, name, tier, idx):
     return m
 
 
+# ------------------------------------------------------------------ (8) NFFT smaller than / equal to / larger than the series: f against the spectrum it accompanies
+# Every entry point that takes an FFT length next to the data, every method: the frequency vector must have ONE entry per spectral value it is
+# returned with (or that the same object reports: CoherenceAnalyzer .frequencies next to .spectrum / .coherence / .coherency / .phase), spaced
+# Fs / NFFT_used, NFFT_used being the number of points of the transform the estimator really took: periodogram(_csd) NFFT (truncating when
+# NFFT < n), multitaper max(NFFT, n) (tapered_spectra never takes fewer points than samples), Welch the segment length.
+NFFT_VIA = ('func', 'get_spectra', 'CoherenceAnalyzer', 'SpectralAnalyzer')
+NFFT_MODES = ('none', 'smaller', 'equal', 'larger', 'much-smaller', 'larger-other-parity')
+
+
+def nfft_used(m):
+    n, f = m['n'], m.get('NFFT')
+    if m['est'] == 'welch':
+        return f
+    if f is None:
+        return n
+    return max(n, f) if 'multi_taper' in m['est'] else f
+
+
+def nfft_onesided(m):
+    return m.get('sides', 'default') != 'twosided'
+
+
+def nfft_data(m):
+    """real rows: a tone with whole periods in the samples the estimator analyses (+ a little noise)"""
+    r = np.random.RandomState(m['dseed'])
+    n, nch = m['n'], m.get('nch', 2)
+    L = nfft_used(m)
+    per = min(L, n)                       # samples actually analysed in one transform
+    t = np.arange(n)
+    return np.vstack([np.cos(2 * np.pi * m['k0'] * t / per + 0.4 + 0.5 * c) + 0.01 * r.randn(n) for c in range(nch)])
+
+
+def run_nfft(m):
+    """-> (f, number of spectral values along the last axis of what f accompanies, one auto-spectrum, {name: last-axis length} of the other results)"""
+    import nitime.algorithms as tsa
+    import nitime.analysis as an
+    x = nfft_data(m)
+    Fs, est, nf = x2f(m['Fs']), m['est'], m.get('NFFT')
+    kw = {} if m.get('sides', 'default') == 'default' else {'sides': m['sides']}
+    if m['via'] == 'func':
+        if est == 'periodogram':
+            f, p = tsa.periodogram(x, Fs=Fs, N=nf, **kw)
+            return f, int(p.shape[-1]), p[0], {}
+        if est == 'periodogram_csd':
+            f, p = tsa.periodogram_csd(x, Fs=Fs, NFFT=nf, **kw)
+            return f, int(p.shape[-1]), np.abs(p[0, 0]), {}
+        if est == 'multi_taper_psd':
+            f, p, _ = tsa.multi_taper_psd(x, Fs=Fs, NFFT=nf, adaptive=bool(m.get('adaptive')), jackknife=False, **kw)
+            return f, int(p.shape[-1]), p[0], {}
+        f, p = tsa.multi_taper_csd(x, Fs=Fs, NFFT=nf, adaptive=bool(m.get('adaptive')), **kw)
+        return f, int(p.shape[-1]), np.abs(p[0, 0]), {}
+    md = {'this_method': est}
+    if nf is not None:
+        md['NFFT'] = nf
+    md.update(kw)
+    if est == 'welch':
+        md['n_overlap'] = nf // 2
+    if m['via'] == 'get_spectra':
+        md['Fs'] = Fs
+        f, p = tsa.get_spectra(x, md)
+        return f, int(p.shape[-1]), np.abs(p[0, 0]), {}
+    T = mk_ts(m, x)
+    if m['via'] == 'SpectralAnalyzer':
+        A = an.SpectralAnalyzer(T, method=md)
+        f, p = A.psd if m.get('attr') == 'psd' else A.cpsd
+        return f, int(np.asarray(p).shape[-1]), np.abs(np.asarray(p)[0] if m.get('attr') == 'psd' else np.asarray(p)[0, 0]), {}
+    A = an.CoherenceAnalyzer(T, method=md)
+    order = m.get('order', 'freq-first')
+    f = A.frequencies if order == 'freq-first' else None
+    sp = np.asarray(A.spectrum)
+    others = {'spectrum': int(sp.shape[-1])}
+    for nm in ('coherence', 'coherency', 'phase'):
+        others[nm] = int(np.asarray(getattr(A, nm)).shape[-1])
+    try:
+        others['delay'] = int(np.asarray(A.delay).shape[-1])
+    except Exception as e:  # noqa
+        others['delay'] = 'err ' + err_kind(e)
+    if f is None:
+        f = A.frequencies
+    return f, int(sp.shape[-1]), np.abs(sp[0, 0]), others
+
+
+def nfft_site(m):
+    side = 'onesided' if nfft_onesided(m) else 'twosided'
+    if m['via'] == 'func':
+        return '%s_%s' % (m['est'], side)
+    return 'get_spectra_%s_%s' % (m['est'], side)
+
+
+def nfft_line(m):
+    if m['est'] == 'welch':
+        return 'C05 true1 %s %d' % (m['Fs'], m['NFFT'])                     # mlab contract
+    return 'C05 gridx %s %s %s %d %s none' % (nfft_site(m), m['est'], m['Fs'], m['n'], 'none' if m.get('NFFT') is None else m['NFFT'])
+
+
+def judge_nfft(m, res):
+    pre = 'nfft-vs-length/%s/%s/%s/%s' % (m['via'], m['est'], 'onesided' if nfft_onesided(m) else 'twosided', m['mode'])
+    if isinstance(res, str):
+        return [(pre + '/raises', '%s(%s) with %d samples and NFFT=%s raised %s' % (m['via'], m['est'], m['n'], m.get('NFFT'), res))]
+    f, nvals, spec, others = res
+    L, Fs = nfft_used(m), fs_true(m)
+    one = nfft_onesided(m)
+    want = [Fr(k) * Fs / L for k in range(L // 2 + 1 if one else L)]
+    fl = [float(v) for v in np.asarray(f, dtype=float).reshape(-1)]
+    desc = '%s %s, %d samples, NFFT=%s (the transform taken has %d points), Fs=%s, sides=%s' % (
+        m['via'], m['est'], m['n'], m.get('NFFT'), L, Fs, m.get('sides', 'default'))
+    out = []
+    if nvals != len(fl):
+        out.append((pre + '/values-vs-frequencies', '%s: %d frequencies %s… are returned with %d spectral values per channel' % (desc, len(fl), fl[:4], nvals)))
+    for nm, k in sorted(others.items()):
+        if k != len(fl):
+            out.append((pre + '/values-vs-frequencies', '%s: .frequencies has %d entries, .%s %s' % (
+                desc, len(fl), nm, ('has %d bins' % k) if isinstance(k, int) else 'cannot be formed (%s)' % k)))
+            break
+    if len(fl) != len(want):
+        out.append((pre + '/length', '%s: %d frequencies %s…, the transform has %d bins: %s…' % (desc, len(fl), fl[:4], len(want), [float(q) for q in want[:4]])))
+    elif not close4(fl, want):
+        i = [j for j, (a, q) in enumerate(zip(fl, want)) if not math.isfinite(a) or abs(Fr(a) - q) > Fr(4 * ulp(max(abs(a), abs(float(q)))))][0]
+        out.append((pre + '/grid', '%s: entry %d is %r, bin %d of the %d-point transform is at %r Hz' % (desc, i, fl[i], i, L, float(want[i]))))
+    # the tone (whole periods in the analysed samples): its TRUE frequency against the reported frequency of the spectral maximum
+    sp = np.abs(np.asarray(spec, dtype=float)).reshape(-1)
+    if len(sp) == len(fl) and len(fl) > 2 and m['est'] != 'welch':
+        per = min(L, m['n'])
+        f0 = float(Fr(m['k0']) * Fs / per)
+        half = sp[:L // 2 + 1]
+        j = int(np.argmax(half))
+        width = (4.5 if 'multi_taper' in m['est'] else 1.01) * float(Fs) / min(L, m['n'])
+        if not math.isfinite(fl[j]) or abs(fl[j] - f0) > width:
+            out.append((pre + '/peak', '%s: a tone of %r Hz has its spectral maximum at the reported frequency %r Hz' % (desc, f0, fl[j])))
+    return out
+
+
+def gen_nfft(rng, tier, via, est, mode, idx):
+    mt = 'multi_taper' in est
+    n = rng.randint(36, 64) if mt else rng.randint(16, 48)
+    n = (n | 1) if idx % 2 else (n & ~1)
+    if est == 'welch':
+        n = rng.choice([40, 64, 100, 129])
+        nf = {'smaller': rng.choice([16, 32, 20, 15]), 'equal': n, 'larger': n + rng.choice([8, 28]), 'much-smaller': 8,
+              'larger-other-parity': n + rng.choice([1, 3]), 'none': None}[mode]
+    else:
+        nf = {'none': None, 'smaller': n - rng.choice([2, 4, 6, 8]), 'equal': n, 'larger': n + rng.choice([2, 6, 28]),
+              'much-smaller': max(8, n // 2 - (idx % 2)), 'larger-other-parity': n + rng.choice([1, 3, 9])}[mode]
+    m = {'call': 'nfft', 'via': via, 'est': est, 'mode': mode, 'n': n, 'NFFT': nf, 'dseed': rng.randint(0, 10**6), 'nch': [2, 3][idx % 2]}
+    L = nfft_used(m) if nf is not None or est != 'welch' else None
+    if L is None:
+        return None
+    m['N'] = L
+    per = min(L, n)
+    m['k0'] = rng.randint(max(5, per // 4), max(5, per // 2 - 6)) if mt else rng.randint(2, max(2, per // 2 - 2))
+    if via in ('func', 'get_spectra') and est != 'welch':
+        m['sides'] = ['default', 'onesided', 'twosided'][(idx // 2) % 3]
+    if mt and via == 'func':
+        m['adaptive'] = bool((idx // 3) % 2)
+    if via in ('CoherenceAnalyzer', 'SpectralAnalyzer'):
+        u, dt, rate = rng.choice([iv for iv in INTERVALS if iv[0] == ['s', 'ms', 'us'][idx % 3]])
+        m.update(unit=u, interval=dt, Fs=f2x(float(rate)))
+        m['order'] = ['freq-first', 'spec-first'][(idx // 2) % 2]
+        if via == 'SpectralAnalyzer':
+            m['attr'] = ['psd', 'cpsd'][idx % 2]
+    else:
+        m['Fs'] = f2x(float(rng.choice(FS_VALUES)))
+    return m
+
+
+def nfft_cases(rng, tier, rep):
+    out = []
+    combos = [('func', e) for e in ESTIMATORS] + [('get_spectra', e) for e in ('multi_taper_csd', 'periodogram_csd', 'welch')] + \
+             [('CoherenceAnalyzer', e) for e in ('multi_taper_csd', 'periodogram_csd', 'welch')] + [('SpectralAnalyzer', 'welch')]
+    i = 0
+    for r in range(rep):
+        for via, est in combos:
+            for mode in NFFT_MODES:
+                for par in range(2):
+                    i += 1
+                    m = gen_nfft(rng, tier, via, est, mode, 2 * (i // 2) + par + r)
+                    if m is None:
+                        continue
+                    c = make_case(m)
+                    if isinstance(c._res, str) and est == 'welch':
+                        SKIPPED['nfft'] = SKIPPED.get('nfft', 0) + 1      # mlab refuses some (n, NFFT, overlap) combinations: not a C05 matter
+                        continue
+                    out.append(c)
+                    if via == 'CoherenceAnalyzer' and est != 'welch' and not isinstance(c._res, str):
+                        # the model of the two getters (Generated/FreqSrc.lean + GridLens): number of frequencies, number of bins
+                        c2 = _C('C05 freqlens CoherenceAnalyzer %s one %d %s' % (est, m['n'], 'none' if m.get('NFFT') is None else m['NFFT']),
+                                '%d %d' % (len(np.asarray(c._res[0]).reshape(-1)), c._res[1]), 'nfft-vs-length/CoherenceAnalyzer/getter-lengths', meta=m, nontrivial=True)
+                        c2._res = None
+                        out.append(c2)
+    return out
+
+
+# ------------------------------------------------------------------ utils.get_bounds called directly: edges on a bin, 1 ulp to either side, between bins
+def run_bounds(m):
+    import nitime.utils as utils
+    f = utils.get_freqs(x2f(m['Fs']), m['N'])
+    lb, ub = opt(m, 'lb'), opt(m, 'ub')
+    kw = {}
+    if m.get('lb') is not None:
+        kw['lb'] = lb
+    if m.get('ub') is not None or m.get('ub_none'):
+        kw['ub'] = ub
+    a, b = utils.get_bounds(f, **kw)
+    return int(a), int(b)
+
+
+def judge_bounds(m, res):
+    pre = 'get_bounds/%s' % m.get('band_mode', 'band')
+    if isinstance(res, str):
+        return [(pre + '/raises', 'get_bounds(get_freqs(%r, %d), lb=%s, ub=%s) raised %s' % (x2f(m['Fs']), m['N'], opt(m, 'lb'), opt(m, 'ub'), res))]
+    Fs, N = Fr(x2f(m['Fs'])), m['N']
+    lb = Fr(x2f(m['lb'])) if m.get('lb') is not None else Fr(0)
+    ub = Fr(x2f(m['ub'])) if m.get('ub') is not None else None
+    g = [Fr(k) * Fs / N for k in range(N // 2 + 1)]
+    a = sum(1 for q in g if q < lb)
+    b = len(g) if ub is None else sum(1 for q in g if q <= ub)
+    if (a, b) != tuple(res):
+        return [(pre + '/indices', 'get_bounds(get_freqs(%r, %d), lb=%r, ub=%r) = %s: the bins with lb <= k*Fs/N <= ub are %d..%d (slice %d:%d)' % (
+            x2f(m['Fs']), N, opt(m, 'lb'), opt(m, 'ub'), tuple(res), a, b - 1, a, b))]
+    return []
+
+
+def bounds_cases(rng, tier, rep):
+    out = []
+    modes = [(d1, d2) for d1 in (-1, 0, 1) for d2 in (-1, 0, 1)]
+    for i in range(len(modes) * 2 * rep):
+        N = [8, 16, 32, 64, 128][i % 5]
+        fs = float(EXACT_RATES[(i // 5) % len(EXACT_RATES)])
+        d1, d2 = modes[i % len(modes)]
+        k1 = rng.randint(0, N // 2 - 1)
+        k2 = rng.randint(k1, N // 2)
+        e = lambda k, d: (k * (1.0 / N)) * fs if d == 0 else float(np.nextafter((k * (1.0 / N)) * fs, d * np.inf))
+        m = {'call': 'bounds', 'N': N, 'n': N, 'Fs': f2x(fs), 'lb': f2x(max(0.0, e(k1, d1))), 'ub': f2x(e(k2, d2)), 'band_mode': 'ulp/%+d/%+d' % (d1, d2), 'dseed': 0}
+        if i % 7 == 3:
+            m.pop('ub')
+            m['ub_none'] = bool(i % 2)
+        if i % 11 == 5:
+            m.pop('lb')
+        out.append(make_case(m))
+    for i in range(12 * rep):                                           # inexact grids: edges between bins
+        N = rng.choice([5, 7, 9, 12, 15, 20, 100, 1000])
+        fs = float(rng.choice(FS_VALUES))
+        k1 = rng.randint(0, N // 2)
+        k2 = rng.randint(k1, N // 2)
+        m = {'call': 'bounds', 'N': N, 'n': N, 'Fs': f2x(fs), 'lb': f2x(max(0.0, (k1 - 0.5) * fs / N)), 'ub': f2x((k2 + 0.5) * fs / N), 'band_mode': 'between-bins', 'dseed': 0}
+        out.append(make_case(m))
+    return out
+
+
+# ------------------------------------------------------------------ (9) long records: judged by the oracle alone (the model need not run at these sizes)
+def judge_long(m):
+    """one long-record experiment, re-runnable from its description: list of (key, what)"""
+    import nitime.utils as utils
+    import nitime.analysis as an
+    import nitime.timeseries as ts
+    N, fs, tag = m['N'], x2f(m['Fs']), m['tag']
+    exact = tag == 'pow2'
+    pre = 'long-record/%s' % tag
+    f = np.asarray(utils.get_freqs(fs, N))
+    nb = N // 2 + 1
+    kk = np.arange(nb)
+    if m['what'] == 'get_freqs':
+        if len(f) != nb:
+            return [(pre + '/get_freqs/length', 'get_freqs(%r, %d) has %d entries, %d bins' % (fs, N, len(f), nb))]
+        ref = (kk.astype(np.longdouble) * np.longdouble(fs)) / np.longdouble(N)
+        err = np.abs(f.astype(np.longdouble) - ref)
+        lim = 4 * np.spacing(np.maximum(np.abs(f), 1e-300))
+        if (exact and not np.array_equal(f, kk * fs / N)) or np.any(err > lim):
+            j = int(np.argmax(err - lim))
+            return [(pre + '/get_freqs/grid', 'get_freqs(%r, %d)[%d] = %r, bin frequency %r' % (fs, N, j, float(f[j]), float(ref[j])))]
+        return []
+    if len(f) != nb:
+        return []
+    k1, k2, mode = m['k1'], m['k2'], m['band_mode']
+    if exact:
+        d1, d2 = m['d']
+        e = lambda k, d: float(kk[k] * fs / N) if d == 0 else float(np.nextafter(kk[k] * fs / N, d * np.inf))
+        lb, ub = e(k1, d1), e(k2, d2)
+        a, b = k1 + (1 if d1 > 0 else 0), k2 + (1 if d2 >= 0 else 0)         # slice a:b = bins with lb <= k*Fs/N <= ub
+    elif mode.startswith('near-bin'):
+        # edges 1e-4 of a bin away from a bin: far outside the rounding of the float64 grid (1e-10 of a bin at bin 10^6), inside any
+        # tolerance that is relative to the edge frequency (1e-5 * edge = several bins up here) or a single-precision grid
+        d1, d2 = m['d']
+        lb, ub = (k1 + d1 * 1e-4) * fs / N, (k2 + d2 * 1e-4) * fs / N
+        a, b = k1 + (1 if d1 > 0 else 0), k2 + (1 if d2 > 0 else 0)
+    else:
+        lb, ub = (k1 - 0.5) * fs / N, (k2 + 0.5) * fs / N
+        a, b = k1, k2 + 1
+    if m['what'] == 'get_bounds':
+        got = tuple(int(v) for v in utils.get_bounds(f, lb, ub))
+        if got != (a, b):
+            return [(pre + '/get_bounds/%s/indices' % mode, 'get_bounds(get_freqs(%r, %d), %r, %r) = %s, the bins in the band are %d:%d' % (fs, N, lb, ub, got, a, b))]
+        return []
+    # filtered_fourier of an impulse (flat spectrum): the surviving bins, read off the FFT of the output
+    d = np.zeros((1, N))
+    d[0, 1] = 1.0
+    T = ts.TimeSeries(d, sampling_rate=fs, time_unit=m['unit'])
+    out = an.FilterAnalyzer(T, lb=lb, ub=ub).filtered_fourier
+    S = np.abs(np.fft.rfft(np.asarray(out.data)[0]))
+    kept = np.nonzero(S[1:] > 0.5)[0] + 1
+    wantk = np.arange(max(a, 1), b)
+    if not np.array_equal(kept, wantk):
+        extra = sorted(set(kept.tolist()) ^ set(wantk.tolist()))
+        return [(pre + '/filtered_fourier/%s/band' % mode, 'FilterAnalyzer(%d samples at %r Hz in %s, lb=%r, ub=%r).filtered_fourier keeps bins %d..%d, the band holds %d..%d (bins that differ: %s…)' % (
+            N, fs, m['unit'], lb, ub, kept.min() if kept.size else -1, kept.max() if kept.size else -1, max(a, 1), b - 1, extra[:6]))]
+    return []
+
+
+def long_record_checks(seed, tier):
+    """get_freqs, get_bounds and FilterAnalyzer.filtered_fourier at N = 2^17 … 2^20 (and 2^k +- 1): a tolerance that is relative to the edge frequency
+    spans k * rtol bins at bin k, i.e. nothing at the lengths the other blocks use and several bins here.  Exact integer comparison: on grids
+    that are exact in binary64 (N, Fs powers of two) for edges on a bin and 1 ulp to either side, on the other lengths for edges half-way between bins.
+    Two lengths per quick run, rotated by VERIF_SEED."""
+    import random
+    fails = []
+    r = random.Random(1000 + seed)
+    ks = [17, 18, 19, 20]
+    sg = 1 if seed % 2 else -1
+    picks = [(1 << ks[seed % 4], 'pow2'), ((1 << ks[(seed + 1) % 4]) + sg, 'pow2%+d' % sg)]
+    if tier == 'thorough':
+        picks += [(1 << k, 'pow2') for k in ks] + [((1 << 20) - 1, 'pow2-1'), ((1 << 17) + 1, 'pow2+1'), (10**6, 'million')]
+    nexp = 0
+    for N, tag in picks:
+        exact = tag == 'pow2'
+        fs = float(r.choice([1024.0, 1.0, 4096.0, 0.5])) if exact else float(r.choice([1000.0, 250.0, 44100.0, 1.0]))
+        nb = N // 2 + 1
+        metas = [{'call': 'long', 'N': N, 'n': N, 'Fs': f2x(fs), 'tag': tag, 'what': 'get_freqs'}]
+        for t in range(6):
+            k1 = r.randint(nb // 4, nb // 2)
+            k2 = r.randint(nb // 2 + 1, nb - 2)
+            dd = [(0, 0), (1, -1), (-1, 1), (0, 1), (1, 0), (-1, -1)][t]
+            if not exact:
+                dd = [(1, -1), (0, 0), (-1, 1), (1, 1), (0, 0), (-1, -1)][t]
+            mb = {'call': 'long', 'N': N, 'n': N, 'Fs': f2x(fs), 'tag': tag, 'what': 'get_bounds', 'k1': k1, 'k2': k2, 'd': list(dd),
+                  'band_mode': ('ulp/%+d/%+d' % dd) if exact else ('near-bin/%+d/%+d' % dd) if dd != (0, 0) else 'between-bins'}
+            metas.append(mb)
+            if t < 2:
+                metas.append(dict(mb, what='filtered_fourier', unit=['s', 'ms', 'us'][(seed + t) % 3]))
+        for m in metas:
+            nexp += 1
+            try:
+                js = judge_long(m)
+            except Exception as e:  # noqa
+                js = [('long-record/%s/%s/raises' % (tag, m['what']), '%s on %d samples raised %s' % (m['what'], N, err_kind(e)))]
+            for key, what in js:
+                fails.append(fail_of(m, key, what))
+    return fails, nexp
+
+
 # ------------------------------------------------------------------ the option lattice of the Welch / cache sites, bands at +-1 ulp
 LATTICE_SITES = ('cache_fft', 'SparseCoherenceAnalyzer.frequencies', 'SeedCoherenceAnalyzer.frequencies', 'get_spectra/welch',
                  'CoherenceAnalyzer.frequencies/welch', 'SpectralAnalyzer.psd', 'SpectralAnalyzer.cpsd')
@@ -1865,7 +2242,7 @@ def gen_lattice(rng, name, tier, idx):
     the series' own rate (in s / ms / us); bands: explicit lb=0 / ub=None, edges on a bin and 1 ulp below / above it
     (grids that are exact in binary64), ub above Nyquist"""
     analyzer = name in ANALYZER
-    N = rng.choice([8, 16, 32, 64]) if (idx // 2) % 3 else rng.choice([5, 7, 9, 12, 15, 20])
+    N = rng.choice([8, 16, 32, 64]) if ((idx // 2) % 3 or (idx // 2) % 6 == 3) else rng.choice([5, 7, 9, 12, 15, 20])
     exact = N in (8, 16, 32, 64)
     m = {'call': name, 'dseed': rng.randint(0, 10**6), 'N': N, 'n': 4 * N + rng.randint(0, 7)}
     o = {}
@@ -2080,6 +2457,10 @@ def cases(rng, tier, seed):
                     i += 1
                     out.append(draw(lambda: gen_history(rng, name, tier, ev, o, i + r, dc)))
     out += option_cases(rng, tier, seed, rep)
+    # (8) NFFT smaller than / equal to / larger than the series, every method and entry point: f against the spectrum it accompanies;
+    #     utils.get_bounds called directly
+    out += nfft_cases(rng, tier, rep)
+    out += bounds_cases(rng, tier, rep)
     # (7) failure paths and aliasing: refused set_input calls / constructions / function calls, then the same objects judged
     out += fail_cases(rng, tier, rep)
     # several live analyzers: every ordered pair of classes x how they get their method dict x order of events
@@ -2151,6 +2532,10 @@ def oracle(rng, tier, seed, focus, cases):
         if m['call'] == 'GrangerAnalyzer.frequencies' and not isinstance(res, str) and res[1] is not None and not m.get('hist'):
             if len(np.atleast_1d(res[1])) != len(np.atleast_1d(res[0])):
                 fails.append(fail_of(m, 'GrangerAnalyzer.frequencies/%s/length' % parity(m), 'frequencies and causality values differ in length', c))
+    # (9) long records: oracle only
+    lf, nlong = long_record_checks(seed, tier)
+    fails += lf
+    n += nlong
     # keep the smallest input per key (stable, minimal replay)
     best = {}
     for f in fails:
@@ -2162,13 +2547,19 @@ def oracle(rng, tier, seed, focus, cases):
     ordered = [v[1] for k, v in sorted(best.items())]
     seen = {id(f) for f in ordered}
     ordered += [f for f in fails if id(f) not in seen]
-    stats = {'calls_judged': n, 'distinct_failure_keys': len(best), 'calls_raising_not_judged': dict(SKIPPED),
+    stats = {'calls_judged': n, 'long_record_experiments': nlong, 'distinct_failure_keys': len(best), 'calls_raising_not_judged': dict(SKIPPED),
              'calls_failing': {k: '%d/%d' % (v[1], v[0]) for k, v in sorted(per_call.items()) if v[1]}}
     return ordered, stats
 
 
 def replay(d):
     m = dict(d['meta'])
+    if m.get('call') == 'long':
+        js = judge_long(m)
+        for key, what in js:
+            if key == d.get('key'):
+                return Failure(key, what, d)
+        return Failure(js[0][0], js[0][1], d) if js else None
     try:
         res = run_call(m)
     except Exception as e:  # noqa
